@@ -23,8 +23,8 @@ result_t SimTransport::open() {
   m_buf.clear();
   m_tag.clear();
   // environment decides whether the (re)open succeeds
-  if (m_world->sc.faults && m_world->h != nullptr && !m_world->ended) {
-    uint8_t kinds[2] = {0, K_DEV};
+  if (m_world->sc.faults && m_world->h != nullptr && !m_world->ended && !m_world->frozen) {
+    uint8_t kinds[2] = {0, (uint8_t)(m_world->sc.unbounded ? K_REQ : K_DEV)};
     if (m_world->ex.choose(2, kinds) == 1) {
       m_world->note("OPEN fails");
       m_valid = false;
@@ -199,8 +199,8 @@ void World::onConsumed(size_t n) {
 
 result_t World::onWrite(const uint8_t* data, size_t len) {
   if (ended) return RESULT_OK;
-  if (sc.faults) {
-    uint8_t kinds[2] = {0, K_DEV};
+  if (sc.faults && !frozen) {
+    uint8_t kinds[2] = {0, (uint8_t)(sc.unbounded ? K_REQ : K_DEV)};
     if (ex.choose(2, kinds) == 1) {
       evIoError(true);
       return RESULT_ERR_DEVICE;
@@ -269,6 +269,10 @@ World::Def World::nextDefault(bool) {
     if (gapLeft > 0 || !lastSyn) return Def{D_BYTE, ref::SYN};
     startScript(&sc.foreign[nextForeign]);
     nextForeign++;
+    if (sc.freezeAtLastScript && nextForeign == sc.foreign.size()) {
+      frozen = true;
+      for (auto m : mons) m->onProbeStart();
+    }
     gapLeft = sc.gapSyns;
     if (active == nullptr) return nextDefault(false);
     return nextDefault(false);
@@ -343,7 +347,7 @@ uint64_t World::stateHash() {
   put(echoQ.size(), 1); for (uint8_t v : echoQ) put(v, 1);
   put(arbSlot | (lastSyn << 1) | (exchange << 2) | (enhInitPending << 3) | (hasPendingSecond << 4), 1); put(enhArmed + 1, 2); put(tail, 1); put(drainLeft, 1);
   if (hasPendingSecond) put(pendingSecond, 1);
-  put(arbLost, 1); put(silencesDone, 1); put(externalBusy, 1); put(pickResponder, 1); put(wonAddr, 1);
+  put(arbLost, 1); put(silencesDone, 1); put(externalBusy, 1); put(pickResponder, 1); put(wonAddr, 1); put(frozen, 1);
   if (sc.silenceAtRead > 0) put(reads, 2);
   for (size_t i = 0; i < reqState.size(); i++) {
     put(reqState[i], 1); put(resubmitsLeft[i], 1);
@@ -492,6 +496,8 @@ result_t World::onRead(unsigned int timeout) {
     }
     if (sc.faults) alts.push_back(Alt{READERR, 0, K_DEV});
     for (size_t i = 0; i < sc.reqs.size(); i++) if (sc.reqs[i].late && reqState[i] == 0) alts.push_back(Alt{ENQ, (int)i, K_REQ});
+    if (frozen) alts.resize(1);
+    if (sc.unbounded && gapLeft <= 0) alts.resize(1);  // A-mode: all slots used up, only the default continues
 
     if (ex.useHash && !ex.replaying() && !ex.checkpoint(stateHash())) {
       endRun(false);
@@ -513,6 +519,7 @@ result_t World::onRead(unsigned int timeout) {
     }
 
     auto doTimeout = [&](int extra) {
+      if (sc.unbounded && gapLeft > 0 && ch.a != DEFAULT) gapLeft--;  // A-mode: every deviation uses up one slot
       int ms = (int)timeout + lat + extra;
       vp::vclockAdvanceMs(ms);
       evTimeout(ms);
@@ -558,25 +565,28 @@ result_t World::onRead(unsigned int timeout) {
         enqueue(ch.arg);
         continue;  // another choice at the same read call
       case READERR:
+        if (sc.unbounded && d.k == D_BYTE && active == nullptr && gapLeft > 0) gapLeft--;
         evIoError(false);
         tr->close();
         if (active != nullptr) abortScript();
-        echoQ.clear(); arbSlot = false; enhArmed = -1;
+        echoQ.clear(); arbSlot = false; enhArmed = -1; lastSyn = false; pickResponder = false;
         return RESULT_ERR_DEVICE;
       case DEFAULT:
         if (d.k == D_ECHO) { echoDelivered(d.v, d.v); return RESULT_OK; }
         if (d.k == D_BYTE) { takeByte(); deliverSym(d.v, 0); return RESULT_OK; }
         return doTimeout(0);
       case REPLACE:
-        if (d.k == D_ECHO) { echoDelivered(d.v, (uint8_t)ch.arg); return RESULT_OK; }
+        if (d.k == D_ECHO) { if (sc.unbounded && gapLeft > 0) gapLeft--; echoDelivered(d.v, (uint8_t)ch.arg); return RESULT_OK; }
         takeByte(); deliverSym((uint8_t)ch.arg, 0); return RESULT_OK;
       case LOSE_QUIET:
+        if (sc.unbounded && gapLeft > 0) gapLeft--;
         echoDelivered(d.v, (uint8_t)ch.arg); return RESULT_OK;
       case LOSE_TEL:
         echoDelivered(d.v, (uint8_t)ch.arg);
         startScript(&sc.winnerTelegram);
         return RESULT_OK;
       case ECHO_LOST:
+        if (sc.unbounded && gapLeft > 0) gapLeft--;
         echoQ.pop_front();
         arbSlot = false;
         return doTimeout(0);
